@@ -28,11 +28,14 @@ Lemma sb_seek_spec s off wh :
   sb_buf (fst (sb_seek s off wh)) = fst (ref_step (sb_buf s) (Seek off wh)) /\
   snd (sb_seek s off wh) = snd (ref_step (sb_buf s) (Seek off wh)) /\
   sb_max (fst (sb_seek s off wh)) = sb_max s /\ sb_rolled (fst (sb_seek s off wh)) = sb_rolled s /\
-  sb_synced (fst (sb_seek s off wh)) = length (rf_data (sb_buf s)).
+  (Nat.eqb wh 0 && (off <? 0)%Z = false -> sb_synced (fst (sb_seek s off wh)) = length (rf_data (sb_buf s))).
 Proof.
-  unfold sb_seek, call. destruct (ref_step (sb_buf s) (Seek off wh)) as [b o] eqn:E. cbn.
-  repeat split. cbn [ref_step] in E.
-  destruct (seek_target (sb_buf s) off wh <? 0)%Z; injection E as <- _; reflexivity.
+  unfold sb_seek, call. destruct (Nat.eqb wh 0 && (off <? 0)%Z) eqn:Q.
+  - apply andb_true_iff in Q as [Q1 Q2]. apply Nat.eqb_eq in Q1. subst wh.
+    cbn [ref_step seek_target fst snd]. rewrite Q2. cbn. repeat split; auto. discriminate.
+  - destruct (ref_step (sb_buf s) (Seek off wh)) as [b o] eqn:E. cbn.
+    repeat split. intros _. cbn [ref_step] in E.
+    destruct (seek_target (sb_buf s) off wh <? 0)%Z; injection E as <- _; reflexivity.
 Qed.
 
 Lemma sb_seek0_spec s pos :
@@ -41,7 +44,7 @@ Lemma sb_seek0_spec s pos :
   sb_synced (sb_seek0 s pos) = length (rf_data (sb_buf s)).
 Proof.
   unfold sb_seek0. destruct (sb_seek_spec s (Z.of_nat pos) 0) as [A [_ [B [C D]]]].
-  rewrite A, B, C, D. split; [|auto]. apply f_seek0_eq.
+  rewrite A, B, C, D by (cbn; lia). split; [|auto]. apply f_seek0_eq.
 Qed.
 
 Lemma sb_seek_end_spec s :
